@@ -122,8 +122,10 @@ def subimage(arr, center, shape):
     center = (np.round(center)).astype(int)
 
     if np.isscalar(shape):
-        shape = np.repeat(shape, arr.ndim)
-    assert len(shape) == arr.ndim
+        shape = np.repeat(shape, 2)
+    if len(shape) != 2:
+        raise ValueError("shape must be an int or (int, int), the size of "
+                         "the region in x & y")
 
     def intr(n):
         return intr(np.round(n))
